@@ -250,3 +250,27 @@ Proof.
   - rewrite Hc. rewrite andb_false_r, andb_false_r. cbn [andb h_ms].
     split; [exact Hc|]. unfold block_mode_dict_check. cbn [ms_loadedDictEnd ms_window]. auto.
 Qed.
+
+(* ---- observation 6.6 of docs/C15.md as a statement about the model: block mode does not enforce the window, so an index
+   correction is visible there.  Frequent-correction build, windowLog 10, a 100-byte dictionary loaded into the context:
+   after one 128 KiB block in BLOCK mode the dictionary is still in force (loadedDictEnd = 102), lowLimit = 2 and
+   ZSTD_getLowestMatchIndex = 2: a table cell holding index 5000 (126174 bytes back, far beyond the 1 KiB window) can be
+   used; the next block-mode block starts with a correction that turns that cell into 0.  The same bytes in FRAME mode:
+   ZSTD_checkDictValidity has dropped the dictionary after the first block and the lowest usable index is curr - 1024, so
+   the cell was out of reach anyway and the correction changes nothing that can be used. *)
+Lemma block_mode_correction_is_visible_lemma :
+  let p := mkCParams 10 4 4 1 false in
+  let begin_ := OpBegin p 0 false true 1000 1000 100 (Some (mkDict 50000 100 false false)) in
+  let cell := mkTables (5000 :: repeat 0 15) [] [] in
+  let hb := run true (h_init p) [begin_; OpBlockMode 100000 131072; OpFinder 131174 cell] in
+  let hf := run true (h_init p) [begin_; OpContinue 100000 [131072]; OpFinder 131174 cell] in
+  let curr := 131174 in
+  (* block mode: the cell is usable although it is 126174 bytes back *)
+  ms_loadedDictEnd (h_ms hb) = 102 /\ getLowestMatchIndex (ms_window (h_ms hb)) (ms_loadedDictEnd (h_ms hb)) curr 10 = 2 /\
+  (* ... and the correction at the start of the next block removes it *)
+  step_ok true hb (OpBlockMode 231072 131072) = true /\
+  nbOvf (ms_window (h_ms (step true hb (OpBlockMode 231072 131072)))) = 1 /\
+  hd 1 (hashTable (ms_tables (h_ms (step true hb (OpBlockMode 231072 131072))))) = 0 /\
+  (* frame mode: the cell was already out of reach *)
+  ms_loadedDictEnd (h_ms hf) = 0 /\ getLowestMatchIndex (ms_window (h_ms hf)) (ms_loadedDictEnd (h_ms hf)) curr 10 = curr - 1024.
+Proof. cbv zeta. repeat split; vm_compute; reflexivity. Qed.
